@@ -20,8 +20,13 @@ pub mod c16;
 pub mod c16engine;
 pub mod c17;
 pub mod c18;
+pub mod stack;
 
 pub fn dispatch(ctx: &mut Ctx) {
+    // the full-stack swarm serves several properties; each run judges only its own
+    if ctx.mode.as_deref() == Some("stack") {
+        return stack::run(ctx);
+    }
     match ctx.prop.as_str() {
         "C01" => c01::run(ctx),
         "C02" => c02::run(ctx),
